@@ -69,6 +69,9 @@ func bb(b bool) []byte {
 	return []byte{0}
 }
 
+// optsModified is set when a verification entry point was seen to write into the option struct it was given.
+var optsModified int32
+
 func buildTasks(rng *rand.Rand, shared *cache.Verifier) []task {
 	var ts []task
 	type key struct {
@@ -255,6 +258,37 @@ func buildTasks(rng *rand.Rand, shared *cache.Verifier) []task {
 		}
 	}
 	ts = append(kept, extra...)
+	// one option struct with Verify == nil (the documented way to ask for the default set) shared by all goroutines:
+	// verification reads it, and must leave it exactly as it was
+	nilOpts := &ed25519.Options{Context: "shared options with nil Verify"}
+	nilSnapshot := *nilOpts
+	nsig, _ := keys[0].priv.Sign(nil, msg, nilOpts)
+	for _, entry := range []string{"VerifyWithOptions", "VerifyExpandedWithOptions", "BatchVerifier.AddWithOptions", "Sign(SelfVerify)"} {
+		entry := entry
+		ts = append(ts, task{name: "ed25519." + entry + "(shared options with nil Verify)", run: func() []byte {
+			var out []byte
+			switch entry {
+			case "VerifyWithOptions":
+				out = bb(ed25519.VerifyWithOptions(keys[0].pub, msg, nsig, nilOpts))
+			case "VerifyExpandedWithOptions":
+				out = bb(ed25519.VerifyExpandedWithOptions(keys[0].exp, msg, nsig, nilOpts))
+			case "BatchVerifier.AddWithOptions":
+				bv := ed25519.NewBatchVerifier()
+				bv.AddWithOptions(keys[0].pub, msg, nsig, nilOpts)
+				ok, _ := bv.Verify(nil)
+				out = bb(ok)
+			default:
+				so := *nilOpts
+				so.SelfVerify = true
+				s, _ := keys[0].priv.Sign(nil, msg, &so)
+				out = s
+			}
+			if *nilOpts != nilSnapshot {
+				atomic.StoreInt32(&optsModified, 1)
+			}
+			return out
+		}})
+	}
 	for i := range ts {
 		ts[i].want = ts[i].run() // sequential reference
 	}
@@ -267,6 +301,10 @@ func stress(r *mon.Run, c Case) {
 	inner := cache.NewLRUCache(capacity)
 	shared := cache.NewVerifier(inner)
 	tasks := buildTasks(rng, shared)
+	if atomic.LoadInt32(&optsModified) != 0 {
+		r.Violate("concurrent/callers-option-struct-modified", "a verification entry point wrote into the *Options it was given (Verify == nil was replaced): an unsynchronised write into caller-owned memory that several goroutines share", c)
+		atomic.StoreInt32(&optsModified, 0)
+	}
 	before := tableDigest()
 	var wg sync.WaitGroup
 	var mismatches int64
